@@ -37,8 +37,10 @@ type end struct {
 	peerWr   bool // the peer closed its write side (or closed completely): EOF after the buffer drains
 	reset    bool // the peer reset the connection: pending and future reads fail with ErrReset
 	notify   chan struct{}
-	rdl, wdl time.Time   // read / write deadlines of the owner of this end (zero: none)
-	rdTimer  *time.Timer // wakes a blocked Read when the read deadline passes
+	stalled  bool          // the owner of this end has stopped taking data and its window is full: the peer's writes block
+	wnotify  chan struct{} // wakes the owner's blocked Write (the peer takes data again, or this end was closed)
+	rdl, wdl time.Time     // read / write deadlines of the owner of this end (zero: none)
+	rdTimer  *time.Timer   // wakes a blocked Read when the read deadline passes
 	ReadCnt  int
 	WriteCnt int
 	RdBytes  int
@@ -50,6 +52,22 @@ func (e *end) signal() {
 	case e.notify <- struct{}{}:
 	default:
 	}
+}
+
+func (e *end) wsignal() {
+	select {
+	case e.wnotify <- struct{}{}:
+	default:
+	}
+}
+
+// Stall makes this end stop taking data, as a peer does that no longer reads while its receive window is full: from now on the
+// other end's writes block - until Stall(false), or until that other end is closed by its owner.
+func (c *Conn) Stall(b bool) {
+	c.self.mu.Lock()
+	c.self.stalled = b
+	c.self.mu.Unlock()
+	c.peer.wsignal()
 }
 
 // Conn is one end of a pipe.
@@ -66,8 +84,8 @@ type Conn struct {
 
 // Pipe returns the two ends (a: dialing side, b: accepting side).
 func Pipe(id int) (*Conn, *Conn) {
-	ea := &end{notify: make(chan struct{}, 1)}
-	eb := &end{notify: make(chan struct{}, 1)}
+	ea := &end{notify: make(chan struct{}, 1), wnotify: make(chan struct{}, 1)}
+	eb := &end{notify: make(chan struct{}, 1), wnotify: make(chan struct{}, 1)}
 	return &Conn{ID: id, Name: fmt.Sprintf("c%d.cli", id), self: ea, peer: eb}, &Conn{ID: id, Name: fmt.Sprintf("c%d.srv", id), self: eb, peer: ea}
 }
 
@@ -135,11 +153,23 @@ func (c *Conn) Write(p []byte) (int, error) {
 	if late {
 		return 0, os.ErrDeadlineExceeded
 	}
-	c.peer.mu.Lock()
-	peerClosed := c.peer.closed
-	c.peer.mu.Unlock()
-	if peerClosed {
-		return 0, ErrBrokenPipe
+	for {
+		c.peer.mu.Lock()
+		peerClosed, stalled := c.peer.closed, c.peer.stalled
+		c.peer.mu.Unlock()
+		if peerClosed {
+			return 0, ErrBrokenPipe
+		}
+		if !stalled {
+			break
+		}
+		<-c.self.wnotify // a channel receive: a durable block for testing/synctest
+		c.self.mu.Lock()
+		closed := c.self.closed
+		c.self.mu.Unlock()
+		if closed {
+			return 0, net.ErrClosed
+		}
 	}
 	c.deliver(p)
 	return len(p), nil
@@ -162,10 +192,12 @@ func (c *Conn) Close() error {
 	c.self.closed = true
 	c.self.mu.Unlock()
 	c.self.signal()
+	c.self.wsignal()
 	c.peer.mu.Lock()
 	c.peer.peerWr = true
 	c.peer.mu.Unlock()
 	c.peer.signal()
+	c.peer.wsignal()
 	if already {
 		return net.ErrClosed
 	}
